@@ -538,6 +538,166 @@ do_msg(char *act, long n, long t)
 	emit();
 }
 
+
+// ------------------------------------------------------------------ http chunked transfer decoder (HttpChunk.tla)
+#include "supplemental/http/http_api.h"
+static nni_http_chunks *hc;
+static size_t           hc_maxsz;
+static uint8_t          hc_stream[8192]; // every byte offered to the decoder in this walk, in order
+static size_t           hc_len;
+static size_t           hc_eaten;     // bytes the decoder reported as consumed
+static size_t           hc_start[32]; // stream offset at which the data of chunk i starts
+static int              hc_nstart;
+static int              hc_lastrv;
+static const char *
+hc_rvname(int rv)
+{
+	switch (rv) {
+	case 0: return "ok";
+	case NNG_EAGAIN: return "again";
+	case NNG_EPROTO: return "eproto";
+	case NNG_EMSGSIZE: return "emsgsize";
+	default: return rvname(rv);
+	}
+}
+static int
+hc_count(nni_http_chunks *cl)
+{
+	int n = 0;
+	for (nni_http_chunk *c = nni_http_chunks_iter(cl, NULL); c != NULL; c = nni_http_chunks_iter(cl, c)) {
+		n++;
+	}
+	return n;
+}
+// concrete bytes of a character class; printable filler varies with the position so that a shifted copy is seen
+static size_t
+hc_token(const char *t, uint8_t *dst, size_t pos)
+{
+	static const char fill[] = "~!#$%&*+-./";
+	if (!strcmp(t, "HUGE")) {
+		memcpy(dst, "ffffffffffffffff", 16);
+		return 16;
+	}
+	dst[0] = !strcmp(t, "~")  ? (uint8_t) fill[pos % 11]
+	    : !strcmp(t, "SP")    ? ' '
+	    : !strcmp(t, "TAB")   ? '\t'
+	    : !strcmp(t, "CR")    ? '\r'
+	    : !strcmp(t, "LF")    ? '\n'
+	    : !strcmp(t, "HI")    ? 0x80
+	                          : (uint8_t) t[0];
+	return 1;
+}
+// sizes, total and whether the data collected so far equals the stream bytes behind each chunk line
+static void
+hc_obs(nni_http_chunks *cl, size_t eaten, const size_t *start)
+{
+	int ok = 1, i = 0;
+	o(",\"obs\":{\"sizes\":[");
+	for (nni_http_chunk *c = nni_http_chunks_iter(cl, NULL); c != NULL; c = nni_http_chunks_iter(cl, c), i++) {
+		size_t sz = nni_http_chunk_size(c), have = eaten > start[i] ? eaten - start[i] : 0;
+		o("%s%zu", i ? "," : "", sz);
+		if (have > sz) {
+			have = sz;
+		}
+		if (have > 0 && memcmp(nni_http_chunk_data(c), hc_stream + start[i], have) != 0) {
+			ok = 0;
+		}
+	}
+	o("],\"total\":%zu,\"dataok\":%s}}", nni_http_chunks_size(cl), ok ? "true" : "false");
+}
+static void
+do_chunk(char *act, long a1, const char *tok)
+{
+	if (!strcmp(act, "init")) {
+		hc_maxsz = (size_t) a1;
+		if (nni_http_chunks_init(&hc, hc_maxsz) != 0) {
+			abort();
+		}
+		hc_len = hc_eaten = 0;
+		hc_nstart         = 0;
+		hc_lastrv         = NNG_EAGAIN;
+		return;
+	}
+	if (strcmp(act, "feed") != 0 || hc_len + 16 > sizeof(hc_stream)) {
+		fprintf(stderr, "bad chunk action %s\n", act);
+		exit(3);
+	}
+	size_t n   = hc_token(tok, hc_stream + hc_len, hc_len);
+	size_t len = 0;
+	int    c0  = hc_count(hc);
+	int    rv  = nni_http_chunks_parse(hc, hc_stream + hc_len, n, &len);
+	hc_len += n;
+	hc_eaten += len;
+	hc_lastrv = rv;
+	if (hc_count(hc) > c0 && hc_nstart < 32) {
+		hc_start[hc_nstart++] = hc_eaten; // the data begins right behind the LF that created the chunk
+	}
+	o("{\"out\":{\"rv\":\"%s\",\"eat\":%zu}", hc_rvname(rv), len);
+	hc_obs(hc, hc_eaten, hc_start);
+	emit();
+}
+// The same byte stream parsed again under other segmentations must give the same outcome: result, bytes consumed, chunks.
+static void
+hc_end(void)
+{
+	static const int pieces[] = { 0, 1, 2, 3, 5, 7, -1, -2, -3 };
+	char             why[96] = "";
+	unsigned         seed    = (unsigned) walk * 2654435761u + 12345u;
+	for (size_t k = 0; k < sizeof(pieces) / sizeof(pieces[0]) && !why[0]; k++) {
+		nni_http_chunks *cl;
+		size_t           pos = 0;
+		int              rv  = NNG_EAGAIN;
+		if (nni_http_chunks_init(&cl, hc_maxsz) != 0) {
+			abort();
+		}
+		while (pos < hc_len) {
+			size_t n = hc_len - pos, len = 0;
+			if (pieces[k] > 0 && n > (size_t) pieces[k]) {
+				n = (size_t) pieces[k];
+			} else if (pieces[k] < 0) {
+				seed = seed * 1103515245u + 12345u;
+				size_t r = 1 + (seed >> 16) % 6;
+				n        = n > r ? r : n;
+			}
+			rv = nni_http_chunks_parse(cl, hc_stream + pos, n, &len);
+			pos += len;
+			if (rv != NNG_EAGAIN) {
+				break;
+			}
+			if (len != n) {
+				snprintf(why, sizeof(why), "seg%d:again-with-%zu-of-%zu", pieces[k], len, n);
+				break;
+			}
+		}
+		if (!why[0] && (rv != hc_lastrv || pos != hc_eaten)) {
+			snprintf(why, sizeof(why), "seg%d:%s@%zu-for-%s@%zu", pieces[k], hc_rvname(rv), pos, hc_rvname(hc_lastrv), hc_eaten);
+		}
+		if (!why[0]) {
+			nni_http_chunk *a = nni_http_chunks_iter(hc, NULL), *b = nni_http_chunks_iter(cl, NULL);
+			int             i = 0;
+			for (; a != NULL && b != NULL; a = nni_http_chunks_iter(hc, a), b = nni_http_chunks_iter(cl, b), i++) {
+				size_t sz = nni_http_chunk_size(a), have = hc_eaten > hc_start[i] ? hc_eaten - hc_start[i] : 0;
+				have = have > sz ? sz : have;
+				if (nni_http_chunk_size(b) != sz || (have > 0 && memcmp(nni_http_chunk_data(b), hc_stream + hc_start[i], have) != 0)) {
+					snprintf(why, sizeof(why), "seg%d:chunk%d-differs", pieces[k], i);
+					break;
+				}
+			}
+			if (!why[0] && (a != NULL || b != NULL || nni_http_chunks_size(cl) != nni_http_chunks_size(hc))) {
+				snprintf(why, sizeof(why), "seg%d:chunk-count", pieces[k]);
+			}
+		}
+		nni_http_chunks_free(cl);
+	}
+	nni_http_chunks_free(hc);
+	hc = NULL;
+	if (why[0]) {
+		o("\"fin\":\"%s\"", why);
+	} else {
+		o("\"fin\":0");
+	}
+}
+
 // ------------------------------------------------------------------ main loop
 int
 main(int argc, char **argv)
@@ -589,6 +749,8 @@ main(int argc, char **argv)
 				nng_msg_free(msg);
 				msg = NULL;
 				o("\"fin\":0");
+			} else if (!strcmp(cur, "chunk")) {
+				hc_end();
 			} else {
 				o("\"fin\":0");
 			}
@@ -615,6 +777,10 @@ main(int argc, char **argv)
 			do_id(act, a1, a2);
 		} else if (!strcmp(obj, "msg")) {
 			do_msg(act, a1, a2);
+		} else if (!strcmp(obj, "chunk")) {
+			char tok[32] = "";
+			sscanf(line, "%*s %*s %31s", tok);
+			do_chunk(act, a1, tok);
 		} else {
 			fprintf(stderr, "bad object %s\n", obj);
 			return 3;
